@@ -1,5 +1,5 @@
 """C05 — frame segmentation.  Model: coq/C05; implementation: YowNoiseSegmentsLayer."""
-import itertools, struct
+import itertools, struct, signal
 from ..checklib import Ctx
 from .. import modelrun
 
@@ -39,10 +39,29 @@ def mk_layer(enabled=True):
     return l, up, low
 
 
-def impl_recv(enabled, chunks):
+class Timeout(Exception):
+    pass
+
+
+def _alarm(signum, frame):
+    raise Timeout()
+
+
+def impl_recv(enabled, chunks, limit=0):
+    """limit > 0: give up after that many seconds (a broken length decode can make the peel loop
+    quadratic on a large buffer); returns ["timeout", ...] then"""
     l, up, _ = mk_layer(enabled)
-    for c in chunks:
-        l.receive(bytes(c))
+    if limit:
+        signal.signal(signal.SIGALRM, _alarm)
+        signal.alarm(limit)
+    try:
+        for c in chunks:
+            l.receive(bytes(c))
+    except Timeout:
+        return [["timeout after %d s" % limit] + up.items[:3], b""]
+    finally:
+        if limit:
+            signal.alarm(0)
     return [up.items, bytes(l._read_buffer)]
 
 
@@ -135,6 +154,15 @@ def gen_cases(ctx):
                 pos += 3 + len(f)
             cuts = sorted(set(c for c in cuts if 0 < c < len(stream)))
         cases.append(("rand", frames, cut(stream, cuts), True))
+    # header boundary sizes: every byte of the 24-bit length is exercised (model side up to 1 MiB in
+    # quick; the larger ones run on the implementation oracle only, see big_frame_oracle)
+    for n in ([65535, 65536, 65537, 1 << 20, (1 << 20) + 257] if ctx.tier == "quick"
+              else [65535, 65536, 65537, 1 << 20, (1 << 20) + 257, (1 << 21) + 3, (1 << 22) + 1]):
+        frames = [b"ab", rng.randbytes(n), b"xyz"]
+        stream = b"".join(wire(f) for f in frames)
+        cuts = sorted(set([1, 2, 3, 5, 6, 7, 8, 9, n // 2, n + 7, n + 9, n + 10]))
+        cases.append(("bigframe", frames, cut(stream, [c for c in cuts if 0 < c < len(stream)]), True))
+        cases.append(("bigframe", frames, [stream], True))
     # out-of-domain / malformed: zero-length frames, random bytes (correspondence only)
     for i in range(200 if ctx.tier == "quick" else 3000):
         if rng.random() < .5:
@@ -155,7 +183,7 @@ def run(ctx):
     model = modelrun.Model(exe) if exe else None
     cases = gen_cases(ctx)
     # --- receive direction
-    impl = [impl_recv(True, ch) for (_, _, ch, _) in cases]
+    impl = [impl_recv(True, ch, limit=(20 if k == "bigframe" else 0)) for (k, _, ch, _) in cases]
     mod = model.call_many("run_recv_chunks", [[1, b"", ch] for (_, _, ch, _) in cases]) if model else None
     distinct, nontrivial = set(), 0
     kinds = {}
@@ -171,16 +199,22 @@ def run(ctx):
         if dom:
             exp = expected(frames, sum(len(c) for c in chunks))
             if got != exp:
-                ctx.violation("oracle:reassembly", {"frames": [f.hex() for f in frames],
-                              "chunks": [c.hex() for c in chunks], "expected": repr(exp)[:400],
-                              "observed": repr(got)[:400]})
+                if sum(len(c) for c in chunks) > 100000:
+                    ctx.violation("oracle:reassembly(large frame)", {"frame_sizes": [len(f) for f in frames],
+                                  "chunk_sizes": [len(c) for c in chunks][:40],
+                                  "observed_frame_sizes": [len(f) if isinstance(f, bytes) else f for f in got[0]][:20],
+                                  "buffer_left": len(got[1])})
+                else:
+                    ctx.violation("oracle:reassembly", {"frames": [f.hex() for f in frames],
+                                  "chunks": [c.hex() for c in chunks], "expected": repr(exp)[:400],
+                                  "observed": repr(got)[:400]})
         if mod is not None and list(map(list, [mod[i][0], ])) is not None:
             m = mod[i]
             if isinstance(m, tuple) or [list(m[0]), m[1]] != [got[0], got[1]]:
                 mismatches += 1
-                ctx.violation("correspondence:C05.recv", {"chunks": [c.hex() for c in chunks],
+                ctx.violation("correspondence:C05.recv", {"chunks": [c.hex()[:400] for c in chunks][:50], "chunk_sizes": [len(c) for c in chunks][:50],
                               "model": repr(m)[:400], "impl": repr(got)[:400],
-                              "frames": [f.hex() for f in frames] if frames else None},
+                              "frames": [f.hex()[:400] for f in frames] if frames else None},
                               found_input=not dom and False or _oracle_fails(frames, chunks, got, dom))
         if i % 997 == 0:
             ctx.add_sample({"kind": kind, "chunks": [c.hex()[:40] for c in chunks][:6],
@@ -208,6 +242,22 @@ def run(ctx):
     if model and ctx.tier == "thorough":
         if model.call("run_send", [True, bytes(16777216)]) != []:
             ctx.violation("correspondence:C05.send", {"len": 16777216}, found_input=False)
+    # --- large frames on the implementation alone (property oracle; sizes setting each of the
+    # high length bits, up to the 2^24-1 maximum)
+    big_sizes = [(1 << 20), (1 << 21) + 1, (1 << 22) + 5, (1 << 23) + 9, 16777215]
+    for n in big_sizes:
+        frames = [b"h", bytes(n), b"tail"]
+        stream = b"".join(wire(f) for f in frames)
+        for chunks in ([stream], cut(stream, [2, 4, 4 + n // 3, n + 4, n + 6]), cut(stream, list(range(65536, len(stream), 65536)))):
+            got = impl_recv(True, chunks, limit=20)
+            exp = expected(frames, len(stream))
+            if got != exp:
+                ctx.violation("oracle:reassembly(large frame)", {"frame_sizes": [len(f) for f in frames],
+                              "chunk_sizes": [len(c) for c in chunks][:40],
+                              "observed_frame_sizes": [len(f) if isinstance(f, bytes) else f for f in got[0]][:20],
+                              "buffer_left": len(got[1])})
+                break
+    ctx.coverage["large_frame_sizes_on_implementation"] = big_sizes
     # --- pass-through
     for _ in range(20):
         chunks = [ctx.rng.randbytes(ctx.rng.randint(0, 10)) for _ in range(ctx.rng.randint(0, 5))]
@@ -246,6 +296,19 @@ def _oracle_fails(frames, chunks, got, dom):
 
 def replay(ctx, data):
     case = data["case"]
+    if "frame_sizes" in case:
+        frames = [bytes(n) for n in case["frame_sizes"]]
+        stream = b"".join(wire(f) for f in frames)
+        cuts, pos = [], 0
+        for n in case["chunk_sizes"][:-1]:
+            pos += n
+            cuts.append(pos)
+        got = impl_recv(True, cut(stream, cuts))
+        print("observed frame sizes:", [len(f) for f in got[0]], "buffer:", len(got[1]))
+        if got != expected(frames, len(stream)):
+            print("VIOLATION property=C05 replay=(replayed)")
+            return 1
+        return 0
     chunks = [bytes.fromhex(c) for c in case.get("chunks", [])]
     got = impl_recv(True, chunks)
     print("observed:", got)
